@@ -488,8 +488,9 @@ class Shapes(object):
                     base, fld = a.rsplit('.', 1)
                     if fld in _SHAPE_FIELDS:
                         for vid, d in self.fs.decl.items():
-                            if d.kind == 'VarDecl' and d.name == base and len(self.fs.defs.get(vid, [])) == 1:
-                                shp = self.shape_of_def(self.fs.defs[vid][0], depth + 1)
+                            nn = [x for x in self.fs.defs.get(vid, []) if not is_null(x)]
+                            if d.kind == 'VarDecl' and d.name == base and len(nn) == 1:
+                                shp = self.shape_of_def(nn[0], depth + 1)
                                 if shp is not None and fld in shp:
                                     s = s.subst(a, shp[fld])
                                 break
@@ -517,6 +518,7 @@ class Shapes(object):
                 if 'mzd_t' in t:
                     return {'nrows': Lin.atom(e.ref + '.nrows'), 'ncols': Lin.atom(e.ref + '.ncols')}
                 return None
+            ds = [d for d in ds if not is_null(d)] or ds     # a NULL initialiser carries no shape
             if len(ds) == 1:
                 return self.shape_of_def(ds[0], depth + 1)
             # several definitions (re-acquired temporaries): all must agree
@@ -880,28 +882,107 @@ def rule_F5(ctx, prog, label, rule='F5'):
         return rr
     rr.ob(True, dict(rank_variable=rk.name))
     A = f.params[0].name
-    nulls = [r for r in f.body.find('ReturnStmt') if r.kids and is_null(r.kids[0])]
-    rr.instances += 1
-    ok = len(nulls) == 1
-    why = '%d `return NULL` statements' % len(nulls)
-    if ok:
-        ifs = fs.enclosing(nulls[0], ('IfStmt',))
-        c = strip(ifs.kids[0], casts=True) if ifs is not None else None
-        ok = c is not None and c.kind == 'BinaryOperator' and c.op == '==' and \
-            {pp(strip(c.kids[0], casts=True)), pp(strip(c.kids[1], casts=True))} == {rk.name, '%s->ncols' % A} and any(x is nulls[0] for x in ifs.kids[1].walk())
-        why = 'guard is `%s`' % (pp(c) if c is not None else None)
-    rr.ob(ok, dict(obligation='NULL iff rank == ncols', verdict=why),
-          Finding(rule, '%s|null-guard' % rule, nulls[0].loc if nulls else f.loc, f.name, 'the NULL result is not guarded by `%s == %s->ncols` (%s)' % (rk.name, A, why), {}, label))
-    res = [r for r in f.body.find('ReturnStmt') if r.kids and not is_null(r.kids[0])]
-    rr.instances += 1
-    rv = strip(res[0].kids[0], casts=True) if res else None
-    shp = Shapes(prog, f).shape(rv) if rv is not None else None
     rk_lin = fs.sym(rk.kids[-1])
+    # the creation of the result: the one mzd_init whose value is returned
+    from .cfg import cfg_of
+    g = cfg_of(f)
+    rets = [r for r in f.body.find('ReturnStmt') if r.kids]
+    rvars = set(strip(r.kids[0], casts=True).refid for r in rets if strip(r.kids[0], casts=True).kind == 'DeclRefExpr')
+    creations = []
+    for vid in rvars:
+        for d0 in fs.defs.get(vid, []):
+            c0 = strip(d0, casts=True)
+            if c0.kind == 'CallExpr' and callee_name(c0) == 'mzd_init':
+                creations.append((vid, c0))
+            elif not is_null(d0):
+                creations.append((vid, None))
+    rr.instances += 1
+    if len(creations) != 1 or creations[0][1] is None:
+        rr.ob(False, None, Finding(rule, '%s|creation' % rule, f.loc, f.name, 'the returned matrix is not created by exactly one mzd_init (%d definitions)' % len(creations), {}, label))
+        return rr
+    rvid, create = creations[0]
+    rv_name = fs.decl[rvid].name
+    cnode = None
+    for n in g.nodes:
+        if n.ast is not None and n.kind in ('stmt',) and any(x is create for x in n.ast.walk()):
+            cnode = n
+    if cnode is None:
+        raise AnalysisBroken('F5: creation statement not found in the CFG')
+
+    def reach(start_nodes, blocked_edges=(), blocked_nodes=()):
+        seen = set()
+        st = list(start_nodes)
+        while st:
+            n = st.pop()
+            if n.id in seen or n.id in blocked_nodes:
+                continue
+            seen.add(n.id)
+            for lab_, m in n.succs:
+                if (n.id, lab_) in blocked_edges:
+                    continue
+                st.append(m)
+        return seen
+    # (1) NULL iff rank == ncols: the branch on `rank == A->ncols` whose taken side cannot reach the creation, and it is the only bypass
+    guards = []
+    for n in g.nodes:
+        if n.kind != 'branch' or n.ast is None:
+            continue
+        c = strip(n.ast, casts=True)
+        while c is not None and c.kind == 'CallExpr' and callee_name(c) == '__builtin_expect':
+            c = strip(c.kids[1], casts=True)
+        if c is not None and c.kind == 'BinaryOperator' and c.op in ('==', '!=', '>=', '<=', '<', '>'):
+            l_, r_ = pp(strip(c.kids[0], casts=True)), pp(strip(c.kids[1], casts=True))
+            if {l_, r_} != {rk.name, '%s->ncols' % A}:
+                continue
+            # rank <= ncols always, so `rank >= ncols` is the same test as `rank == ncols`, and `rank < ncols` its negation
+            op = c.op if l_ == rk.name else {'>=': '<=', '<=': '>=', '<': '>', '>': '<'}.get(c.op, c.op)
+            if op in ('==', '>='):
+                guards.append((n, True))
+            elif op in ('!=', '<'):
+                guards.append((n, False))
+    ok = False
+    why = 'no branch on `%s == %s->ncols`' % (rk.name, A)
+    bypass_side = None
+    for (bn, lab_) in guards:
+        side = [m for (l_, m) in bn.succs if l_ == lab_]
+        other = [m for (l_, m) in bn.succs if l_ != lab_]
+        if side and cnode.id not in reach(side) and other and cnode.id in reach(other):
+            # without this edge, every path from entry to exit creates the result
+            if g.exit.id not in reach([g.entry], blocked_edges={(bn.id, lab_)}, blocked_nodes={cnode.id}):
+                ok = True
+                bypass_side = reach(side)
+                why = 'guard `%s` at line %s is the only way round the creation' % (pp(bn.ast)[:40], bn.ast.line)
+            else:
+                why = 'the creation of the result can be bypassed on a path that does not test `%s == %s->ncols`' % (rk.name, A)
+        else:
+            why = 'the `%s == %s->ncols` branch does not separate the NULL result from the created one' % (rk.name, A)
+    # returns: NULL (or the still-NULL result variable) on the bypass, the created matrix otherwise
+    if ok:
+        after = reach([cnode])
+        for r in rets:
+            rn = g.stmt_node.get(r.uid)
+            if rn is None:
+                continue
+            e = strip(r.kids[0], casts=True)
+            is_rv = e.kind == 'DeclRefExpr' and e.refid == rvid
+            if rn.id in after and not is_rv:
+                ok, why = False, 'a return after the creation yields `%s`, not the created matrix' % pp(e)[:30]
+            if rn.id in bypass_side and not (is_null(r.kids[0]) or is_rv):
+                ok, why = False, 'the full-rank path returns `%s`' % pp(e)[:30]
+    rr.ob(ok, dict(obligation='NULL iff rank == ncols', verdict=why),
+          Finding(rule, '%s|null-guard' % rule, f.loc, f.name, 'the NULL result is not tied to `%s == %s->ncols`: %s' % (rk.name, A, why), {}, label))
+    rr.instances += 1
+    SH = Shapes(prog, f)
+    shp = {'nrows': SH.lin(create.kids[1], create), 'ncols': SH.lin(create.kids[2], create)}
     want_r, want_c = Lin.atom('%s.ncols' % A), Lin.atom('%s.ncols' % A) - rk_lin
-    ok = shp is not None and shp.get('nrows') == want_r and shp.get('ncols') == want_c
-    rr.ob(ok, dict(obligation='result shape', shape=[repr(shp.get('nrows')), repr(shp.get('ncols'))] if shp else None),
-          Finding(rule, '%s|shape' % rule, res[0].loc if res else f.loc, f.name,
-                  'the kernel basis is created as %s x %s, expected %r x %r' % (repr(shp.get('nrows')) if shp else '?', repr(shp.get('ncols')) if shp else '?', want_r, want_c), {}, label))
+    ok = shp.get('nrows') == want_r and shp.get('ncols') == want_c
+    rr.ob(ok, dict(obligation='result shape', shape=[repr(shp.get('nrows')), repr(shp.get('ncols'))]),
+          Finding(rule, '%s|shape' % rule, create.loc, f.name,
+                  'the kernel basis is created as %r x %r, expected %r x %r' % (shp.get('nrows'), shp.get('ncols'), want_r, want_c), {}, label))
+
+    class _RV(object):
+        pass
+    rv = [strip(r.kids[0], casts=True) for r in rets if strip(r.kids[0], casts=True).kind == 'DeclRefExpr' and strip(r.kids[0], casts=True).refid == rvid][0]
     rr.instances += 1
     qarg = None
     for c in f.body.find('CallExpr'):
